@@ -32,10 +32,13 @@ def to_rdflib(t):
     raise TypeError(t)
 
 
-def build(stmts: list, ns: list, dataset: bool):
+def build(stmts: list, ns: list, dataset: bool, empty_graphs=()):
     d = Dataset() if dataset else Graph(bind_namespaces="none")
     for a, b in ns:
         d.bind(a, URIRef(b), override=True, replace=True)
+    if dataset:
+        for kind, name in empty_graphs:  # named graphs that exist in the dataset (ds.graph(name)) and may stay empty
+            d.graph(URIRef(name) if kind == "I" else BNode(name))
     for st in stmts:
         terms = [to_rdflib(t) for t in st]
         if dataset:
@@ -120,7 +123,7 @@ def run_rdflib_case(ctx, case: dict) -> dict | None:
             obs = observe(lambda: tuples)
             data = PullLog(tuples, trace)
         else:
-            mk = lambda: build(case["stmts"], case.get("ns", []), kind == "dataset")  # noqa: E731
+            mk = lambda: build(case["stmts"], case.get("ns", []), kind == "dataset", case.get("empty_graphs", ()))  # noqa: E731
             data = mk()
             obs = observe(mk)
     except Exception as e:  # noqa: BLE001
@@ -198,7 +201,7 @@ def run_rdflib_case(ctx, case: dict) -> dict | None:
         return None
     return {"family": "ER", "entry": entry, "cfg": cfg.as_json(), "stmts": [core.stmt_tok(s) for s in case["stmts"]],
             "ns": case.get("ns", []), "data": kind, "impl": impl_trace[:1500], "model": model[:1500], "corresponds": same,
-            "property_violation": pv, "signature": case.get("signature", {}), "extra": {k: case[k] for k in ("pass_stream", "options_given") if k in case}}
+            "property_violation": pv, "signature": case.get("signature", {}), "extra": {k: case[k] for k in ("pass_stream", "options_given", "empty_graphs") if k in case}}
 
 
 def expected_set(case, out_quads: bool) -> set[str]:
